@@ -99,6 +99,10 @@ def tasks(tier, seed, selftest=False):
     for fam, box in (("P:MAA3+SRC1", 40), ("P:MAA3+SW2", 40), ("P:MAA3+SW2+SW2", 60)):
         for sk in (("succ", "skiprem", "everyseeds"), ("succ", "skipall", "everyseeds")):
             S.append(dict(family=fam, skeleton=sk, timebox=box if q else 900))
+    # minimal-space expansion with skip_ignored on the modular families (skip nodes created by make_skip_node)
+    for fam, box in (("MAAG5", 40), ("P:MAA3+SW2", 20), ("P:MAA3+SRC1", 15)):
+        for sk in (("fmin", "everyseeds"), ("succ", "fmin", "everyseeds")):
+            S.append(dict(family=fam, skeleton=sk, timebox=box if q else 900))
     # a small (symbolic) max_motifs_per_node: skipping must either raise the limit error or keep every minimal trap space
     for sk in (("skipall", "everyseeds"), ("succ", "skipall", "everyseeds"), ("skiprem", "everyseeds"), ("fmin", "everyseeds")):
         S.append(dict(family="U2", skeleton=sk, timebox=15 if q else 600, tag="cfg", params={"cfg": True}))
